@@ -67,6 +67,10 @@ func main() {
 		os.Exit(cmdSelftest(os.Args[2:]))
 	case "tryseeds":
 		os.Exit(cmdTrySeeds(os.Args[2:]))
+	case "baseline-locals":
+		os.Exit(cmdBaselineLocals())
+	case "equivtest":
+		os.Exit(cmdEquivTest(os.Args[2:]))
 	default:
 		usage()
 	}
